@@ -361,9 +361,11 @@ def negative_duration(t, env):
 
 def embeddable(t):
     """every time dependent scalar in the tree uses + or - (then the template is embedded in the Coq model as
-    pulse-with-pulse arithmetic, Corr.arith_tl / arith_tr)"""
+    pulse-with-pulse arithmetic, Corr.arith_tl / arith_tr), or * over a ConstantPT / polynomial FunctionPT (embedded as
+    the product polynomial, Corr.arith_tm)"""
     if t['k'] in ('arithl', 'arithr') and ('allt' in t['s'] or 'mapt' in t['s']) and t['op'] not in ('+', '-'):
-        return False
+        if not (t['op'] == '*' and t['b']['k'] in ('const', 'func')):
+            return False
     for key in ('b', 'l', 'r'):
         if key in t and not embeddable(t[key]):
             return False
@@ -1259,13 +1261,13 @@ def gen_cases(rng, tier, ctx):
         cases += shared_body_forests(rng, 2)
         pairs = exhaustive_pair_forests(rng)
         cases += [c for c in pairs if rng.random() < 0.02]
-        nf = 18
+        nf = 15
     else:
         cases += shared_body_forests(rng, 8) + exhaustive_pair_forests(rng)
         nf = 400
     for k in range(nf):
         cases += random_forest(rng, 2 if k % 3 == 0 else 3)
-    n = {'quick': 400, 'thorough': 4000}[tier]
+    n = {'quick': 300, 'thorough': 4000}[tier]
     if tier == 'quick':
         sweep = [c for c in range_sweep(3) if rng.random() < 0.4]
         sweep += [c for c in range_sweep(4, -4, WRAPPERS[1:]) if rng.random() < 0.012]
